@@ -67,8 +67,27 @@ def realFee (m : Member) (rate : Int) : Except Err Int :=
   let sz := if m.signed then m.size else m.size + 300
   if sz > maxTxSize then .error .txMsgSizeTooBig else .ok ((Int.ofNat (sz / 1000) + 1) * rate)
 
-def totalFee (ms : List Member) (rate : Int) : Except Err Int :=
-  ms.foldlM (fun acc m => do let f ← realFee m rate; pure (acc + f)) 0
+/-- Sum of the members' real fees; the first member whose size is over the limit decides the error. -/
+def totalFee : List Member → Int → Except Err Int
+  | [], _ => .ok 0
+  | m :: ms, rate =>
+    match realFee m rate with
+    | .error e => .error e
+    | .ok f =>
+      match totalFee ms rate with
+      | .error e => .error e
+      | .ok t => .ok (f + t)
+
+/-- run the checks in order, the first error wins -/
+def seq (a b : Except Err Unit) : Except Err Unit :=
+  match a with
+  | .ok () => b
+  | .error e => .error e
+
+/-- `for each member: checkTx`, the first error wins -/
+def firstErr (f : Member → Except Err Unit) : List Member → Except Err Unit
+  | [] => .ok ()
+  | m :: ms => seq (f m) (firstErr f ms)
 
 /-- `getLevelFeeRate(base, 0, 0)`. -/
 def levelRate (a : ACfg) (p : Pool) : Int :=
@@ -85,22 +104,27 @@ def checkFee (a : ACfg) (s : Sub) : Except Err Unit :=
   match s.ms with
   | [m] =>
     if a.minFee == 0 then .ok ()
-    else do
-      let f ← realFee m a.minFee
-      if s.tx.fee < f then .error .txFeeTooLow
-      else if s.tx.fee > a.maxFee && a.maxFee > 0 && a.blockCheck then .error .txFeeTooHigh
-      else .ok ()
+    else
+      match totalFee [m] a.minFee with
+      | .error e => .error e
+      | .ok f =>
+        if s.tx.fee < f then .error .txFeeTooLow
+        else if s.tx.fee > a.maxFee && a.maxFee > 0 && a.blockCheck then .error .txFeeTooHigh
+        else .ok ()
   | ms =>
     if (ms.drop 1).any (fun m => m.fee != 0) then .error .groupFeeNotZero
-    else do
-      let t ← totalFee ms a.minFee
-      if s.tx.fee < t then .error .txFeeTooLow
-      else if s.tx.fee > a.maxFee && a.maxFee > 0 && a.blockCheck then .error .txFeeTooHigh
-      else .ok ()
+    else
+      match totalFee ms a.minFee with
+      | .error e => .error e
+      | .ok t =>
+        if s.tx.fee < t then .error .txFeeTooLow
+        else if s.tx.fee > a.maxFee && a.maxFee > 0 && a.blockCheck then .error .txFeeTooHigh
+        else .ok ()
 
-def checkLevelFee (a : ACfg) (p : Pool) (s : Sub) : Except Err Unit := do
-  let t ← totalFee s.ms (levelRate a p)
-  if s.tx.fee < t then .error .txFeeTooLow else .ok ()
+def checkLevelFee (a : ACfg) (p : Pool) (s : Sub) : Except Err Unit :=
+  match totalFee s.ms (levelRate a p) with
+  | .error e => .error e
+  | .ok t => if s.tx.fee < t then .error .txFeeTooLow else .ok ()
 
 /-- `Mempool.checkTx` for one member. -/
 def checkMember (cfg : Cfg) (p : Pool) (now : Int) (m : Member) : Except Err Unit :=
@@ -123,14 +147,14 @@ def nonceCheck (p : Pool) (v : View) (tx : Tx) : Except Err Unit :=
   else if (accTxs p.acc tx.snd).any (fun t => t.id != tx.id && t.nonce == tx.nonce) then .error .acceleration
   else .ok ()
 
-/-- Everything before `PushTx`. -/
-def precheck (cfg : Cfg) (a : ACfg) (p : Pool) (v : View) (s : Sub) (now : Int) : Except Err Unit := do
-  checkFee a s
-  if a.level then checkLevelFee a p s
-  s.ms.forM (checkMember cfg p now)
-  if !s.ms.all (·.sigOk) then throw .sign
-  if s.ms.any (fun m => v.chain.contains m.id) then throw .dupTx
-  if !a.noExec && v.execBad.contains s.tx.id then throw .execCheck
+/-- Everything before `PushTx`, in the order of the Go code. -/
+def precheck (cfg : Cfg) (a : ACfg) (p : Pool) (v : View) (s : Sub) (now : Int) : Except Err Unit :=
+  seq (checkFee a s) <|
+  seq (if a.level then checkLevelFee a p s else .ok ()) <|
+  seq (firstErr (checkMember cfg p now) s.ms) <|
+  seq (if s.ms.all (·.sigOk) then .ok () else .error .sign) <|
+  seq (if s.ms.any (fun m => v.chain.contains m.id) then .error .dupTx else .ok ()) <|
+  seq (if !a.noExec && v.execBad.contains s.tx.id then .error .execCheck else .ok ()) <|
   nonceCheck p v s.tx
 
 /-- The whole admission path: the new pool and the reply. -/
@@ -143,5 +167,11 @@ def admitTx (cfg : Cfg) (a : ACfg) (p : Pool) (v : View) (s : Sub) (now : Int) :
     | (p', .errManyTx) => (p', .error .manyTx)
     | (p', .errTxExist) => (p', .error .txExist)
     | (p', .errMemFull) => (p', .error .memFull)
+
+/-- The reply as a comparable value: `none` = accepted. -/
+def replyCode (r : Except Err Unit) : Option Err :=
+  match r with
+  | .ok _ => none
+  | .error e => some e
 
 end C22
